@@ -236,6 +236,7 @@ func init() {
 		rulePushPair(prog, rep, func(fd *ast.FuncDecl) bool { return twinScope(fd) == "C05" }, 5)
 		ruleKindList(prog, rep, func(fd *ast.FuncDecl) bool { return twinScope(fd) == "C05" }, 10)
 		ruleResultAlias(prog, rep, "jp")
+		ruleCarry(prog, rep, 100, nil, "jp") // what a filter operand is evaluated against is chosen per operand
 		ruleFullRange(prog, rep, 3, "jp")
 		ruleArgConsist(prog, rep, 20, "jp")
 	}
@@ -253,6 +254,7 @@ func init() {
 		rulePushPair(prog, rep, func(fd *ast.FuncDecl) bool { return twinScope(fd) != "C13" }, 10) // C11 is stated against Get, so Get's own copies count here too
 		ruleKindList(prog, rep, func(fd *ast.FuncDecl) bool { return twinScope(fd) != "C13" }, 40)
 		ruleFullRange(prog, rep, 3, "jp")
+		ruleCarry(prog, rep, 100, nil, "jp")
 		ruleArgConsist(prog, rep, 20, "jp") // the copies of one evaluator for the container types call their helpers with the same arguments
 	}
 	rules["C13"] = func(prog *Program, rep *Report) {
